@@ -201,7 +201,8 @@ func VerifC11Nested() {
 }
 
 // (4) pre-handler before the node, post-handler after it, their results are what the node / successors receive;
-//     the state is carried unchanged (apart from the caller's StateModifier) across interrupt and resume
+//
+//	the state is carried unchanged (apart from the caller's StateModifier) across interrupt and resume
 func VerifC11Handlers() {
 	ctx := context.Background()
 	vcfg("fifo", 1)
